@@ -86,6 +86,31 @@ def _recording_obligations(ctx, repo, of, ro, body):
                          "the training / validation loss evaluated at it (the best-iteration "
                          "search may pick index 0)", all(ok0.values()),
            detail=str(ok0), stmt="start recording " + str(sorted(k for k, v_ in ok0.items() if not v_)))
+    # ---- which model each loss is evaluated on
+    env_ = ro.env.vars
+    mv_eff = env_.get("model_validation")
+    want_mv = phi_(("cmp", "is", n("model_validation"), c(None)), n("model_train"),
+                   n("model_validation"))
+    it_, iv_ = env_.get("interface_train"), env_.get("interface_validation")
+    LI = "liesel.goose.interface.LieselInterface"
+    ok_if = (mv_eff == want_mv
+             and it_ == ("call", ("g", LI), (n("model_train"),), ())
+             and iv_ == ("call", ("g", LI), (mv_eff,), ()))
+    losses_ok = {}
+    for fname, iface in (("_neg_log_prob_train", "interface_train"),
+                         ("_neg_log_prob_validation", "interface_validation")):
+        lf = of.nested(fname)
+        rl_ = evaluate(repo, lf, closure={k: v for k, v in ro.closure().items()
+                                          if k not in ("interface_train", "interface_validation")})
+        ups = [t for t, _, _ in rl_.calls if t[0] == "call" and t[1][0] == "a"
+               and t[1][2] == "update_state"]
+        ps = [n(p_) for p_ in lf.params()]
+        losses_ok[fname] = (len(ups) == 1 and ups[0][1][1] == n(iface)
+                            and ups[0][2] == (ps[0], ps[1]))
+    ctx.ob("C20.R2", of, "the training loss is evaluated with the training model's interface "
+                         "and the validation loss with the validation model's (the training "
+                         "model when none is given)", ok_if and all(losses_ok.values()),
+           detail=f"interfaces ok={ok_if}; {losses_ok}", stmt="loss models")
     # ---- inside the loop body
     rb = evaluate(repo, body, closure=ro.closure())
     V = rb.ret()
